@@ -40,7 +40,7 @@ fn ser_into<const N: usize>(r: &ctap2::Response, content: &[u8]) -> Result<Vec<u
     })
 }
 
-pub const CAPS: [usize; 138] = [1, 2, 3, 4, 5, 6, 7, 8, 9, 10, 11, 12, 13, 14, 15, 16, 17, 18, 19, 20, 21, 22, 23, 24, 25, 26, 27, 28, 29, 30, 31, 32, 33, 34, 35, 36, 37, 38, 39, 40, 41, 42, 43, 44, 45, 46, 47, 48, 49, 50, 51, 52, 53, 54, 55, 56, 57, 58, 59, 60, 61, 62, 63, 64, 65, 66, 67, 68, 69, 70, 71, 72, 73, 74, 75, 76, 77, 78, 79, 80, 81, 82, 83, 84, 85, 86, 87, 88, 89, 90, 91, 92, 93, 94, 95, 96, 97, 98, 99, 100, 101, 102, 103, 104, 105, 106, 107, 108, 109, 110, 111, 112, 113, 114, 115, 116, 117, 118, 119, 120, 121, 122, 123, 124, 125, 126, 127, 128, 255, 256, 257, 1023, 1024, 1025, 3071, 3072, 3073, 7609];
+pub const CAPS: [usize; 327] = [1, 2, 3, 4, 5, 6, 7, 8, 9, 10, 11, 12, 13, 14, 15, 16, 17, 18, 19, 20, 21, 22, 23, 24, 25, 26, 27, 28, 29, 30, 31, 32, 33, 34, 35, 36, 37, 38, 39, 40, 41, 42, 43, 44, 45, 46, 47, 48, 49, 50, 51, 52, 53, 54, 55, 56, 57, 58, 59, 60, 61, 62, 63, 64, 65, 66, 67, 68, 69, 70, 71, 72, 73, 74, 75, 76, 77, 78, 79, 80, 81, 82, 83, 84, 85, 86, 87, 88, 89, 90, 91, 92, 93, 94, 95, 96, 97, 98, 99, 100, 101, 102, 103, 104, 105, 106, 107, 108, 109, 110, 111, 112, 113, 114, 115, 116, 117, 118, 119, 120, 121, 122, 123, 124, 125, 126, 127, 128, 129, 130, 131, 132, 133, 134, 135, 136, 137, 138, 139, 140, 141, 142, 143, 144, 145, 146, 147, 148, 149, 150, 151, 152, 153, 154, 155, 156, 157, 158, 159, 160, 161, 162, 163, 164, 165, 166, 167, 168, 169, 170, 171, 172, 173, 174, 175, 176, 177, 178, 179, 180, 181, 182, 183, 184, 185, 186, 187, 188, 189, 190, 191, 192, 193, 194, 195, 196, 197, 198, 199, 200, 201, 202, 203, 204, 205, 206, 207, 208, 209, 210, 211, 212, 213, 214, 215, 216, 217, 218, 219, 220, 221, 222, 223, 224, 225, 226, 227, 228, 229, 230, 231, 232, 233, 234, 235, 236, 237, 238, 239, 240, 241, 242, 243, 244, 245, 246, 247, 248, 249, 250, 251, 252, 253, 254, 255, 256, 257, 258, 259, 260, 261, 262, 263, 264, 265, 266, 267, 268, 269, 270, 271, 272, 273, 274, 275, 276, 277, 278, 279, 280, 281, 282, 283, 284, 285, 286, 287, 288, 289, 290, 291, 292, 293, 294, 295, 296, 297, 298, 299, 300, 301, 302, 303, 304, 305, 306, 307, 308, 309, 310, 311, 312, 313, 314, 315, 316, 317, 318, 319, 320, 1023, 1024, 1025, 3071, 3072, 3073, 7609];
 
 pub fn ser_cap(n: usize, r: &ctap2::Response, prefill: u8) -> Result<Vec<u8>, String> {
     match n {
@@ -172,9 +172,198 @@ pub fn ser_cap(n: usize, r: &ctap2::Response, prefill: u8) -> Result<Vec<u8>, St
         126 => ser::<126>(r, prefill),
         127 => ser::<127>(r, prefill),
         128 => ser::<128>(r, prefill),
+        129 => ser::<129>(r, prefill),
+        130 => ser::<130>(r, prefill),
+        131 => ser::<131>(r, prefill),
+        132 => ser::<132>(r, prefill),
+        133 => ser::<133>(r, prefill),
+        134 => ser::<134>(r, prefill),
+        135 => ser::<135>(r, prefill),
+        136 => ser::<136>(r, prefill),
+        137 => ser::<137>(r, prefill),
+        138 => ser::<138>(r, prefill),
+        139 => ser::<139>(r, prefill),
+        140 => ser::<140>(r, prefill),
+        141 => ser::<141>(r, prefill),
+        142 => ser::<142>(r, prefill),
+        143 => ser::<143>(r, prefill),
+        144 => ser::<144>(r, prefill),
+        145 => ser::<145>(r, prefill),
+        146 => ser::<146>(r, prefill),
+        147 => ser::<147>(r, prefill),
+        148 => ser::<148>(r, prefill),
+        149 => ser::<149>(r, prefill),
+        150 => ser::<150>(r, prefill),
+        151 => ser::<151>(r, prefill),
+        152 => ser::<152>(r, prefill),
+        153 => ser::<153>(r, prefill),
+        154 => ser::<154>(r, prefill),
+        155 => ser::<155>(r, prefill),
+        156 => ser::<156>(r, prefill),
+        157 => ser::<157>(r, prefill),
+        158 => ser::<158>(r, prefill),
+        159 => ser::<159>(r, prefill),
+        160 => ser::<160>(r, prefill),
+        161 => ser::<161>(r, prefill),
+        162 => ser::<162>(r, prefill),
+        163 => ser::<163>(r, prefill),
+        164 => ser::<164>(r, prefill),
+        165 => ser::<165>(r, prefill),
+        166 => ser::<166>(r, prefill),
+        167 => ser::<167>(r, prefill),
+        168 => ser::<168>(r, prefill),
+        169 => ser::<169>(r, prefill),
+        170 => ser::<170>(r, prefill),
+        171 => ser::<171>(r, prefill),
+        172 => ser::<172>(r, prefill),
+        173 => ser::<173>(r, prefill),
+        174 => ser::<174>(r, prefill),
+        175 => ser::<175>(r, prefill),
+        176 => ser::<176>(r, prefill),
+        177 => ser::<177>(r, prefill),
+        178 => ser::<178>(r, prefill),
+        179 => ser::<179>(r, prefill),
+        180 => ser::<180>(r, prefill),
+        181 => ser::<181>(r, prefill),
+        182 => ser::<182>(r, prefill),
+        183 => ser::<183>(r, prefill),
+        184 => ser::<184>(r, prefill),
+        185 => ser::<185>(r, prefill),
+        186 => ser::<186>(r, prefill),
+        187 => ser::<187>(r, prefill),
+        188 => ser::<188>(r, prefill),
+        189 => ser::<189>(r, prefill),
+        190 => ser::<190>(r, prefill),
+        191 => ser::<191>(r, prefill),
+        192 => ser::<192>(r, prefill),
+        193 => ser::<193>(r, prefill),
+        194 => ser::<194>(r, prefill),
+        195 => ser::<195>(r, prefill),
+        196 => ser::<196>(r, prefill),
+        197 => ser::<197>(r, prefill),
+        198 => ser::<198>(r, prefill),
+        199 => ser::<199>(r, prefill),
+        200 => ser::<200>(r, prefill),
+        201 => ser::<201>(r, prefill),
+        202 => ser::<202>(r, prefill),
+        203 => ser::<203>(r, prefill),
+        204 => ser::<204>(r, prefill),
+        205 => ser::<205>(r, prefill),
+        206 => ser::<206>(r, prefill),
+        207 => ser::<207>(r, prefill),
+        208 => ser::<208>(r, prefill),
+        209 => ser::<209>(r, prefill),
+        210 => ser::<210>(r, prefill),
+        211 => ser::<211>(r, prefill),
+        212 => ser::<212>(r, prefill),
+        213 => ser::<213>(r, prefill),
+        214 => ser::<214>(r, prefill),
+        215 => ser::<215>(r, prefill),
+        216 => ser::<216>(r, prefill),
+        217 => ser::<217>(r, prefill),
+        218 => ser::<218>(r, prefill),
+        219 => ser::<219>(r, prefill),
+        220 => ser::<220>(r, prefill),
+        221 => ser::<221>(r, prefill),
+        222 => ser::<222>(r, prefill),
+        223 => ser::<223>(r, prefill),
+        224 => ser::<224>(r, prefill),
+        225 => ser::<225>(r, prefill),
+        226 => ser::<226>(r, prefill),
+        227 => ser::<227>(r, prefill),
+        228 => ser::<228>(r, prefill),
+        229 => ser::<229>(r, prefill),
+        230 => ser::<230>(r, prefill),
+        231 => ser::<231>(r, prefill),
+        232 => ser::<232>(r, prefill),
+        233 => ser::<233>(r, prefill),
+        234 => ser::<234>(r, prefill),
+        235 => ser::<235>(r, prefill),
+        236 => ser::<236>(r, prefill),
+        237 => ser::<237>(r, prefill),
+        238 => ser::<238>(r, prefill),
+        239 => ser::<239>(r, prefill),
+        240 => ser::<240>(r, prefill),
+        241 => ser::<241>(r, prefill),
+        242 => ser::<242>(r, prefill),
+        243 => ser::<243>(r, prefill),
+        244 => ser::<244>(r, prefill),
+        245 => ser::<245>(r, prefill),
+        246 => ser::<246>(r, prefill),
+        247 => ser::<247>(r, prefill),
+        248 => ser::<248>(r, prefill),
+        249 => ser::<249>(r, prefill),
+        250 => ser::<250>(r, prefill),
+        251 => ser::<251>(r, prefill),
+        252 => ser::<252>(r, prefill),
+        253 => ser::<253>(r, prefill),
+        254 => ser::<254>(r, prefill),
         255 => ser::<255>(r, prefill),
         256 => ser::<256>(r, prefill),
         257 => ser::<257>(r, prefill),
+        258 => ser::<258>(r, prefill),
+        259 => ser::<259>(r, prefill),
+        260 => ser::<260>(r, prefill),
+        261 => ser::<261>(r, prefill),
+        262 => ser::<262>(r, prefill),
+        263 => ser::<263>(r, prefill),
+        264 => ser::<264>(r, prefill),
+        265 => ser::<265>(r, prefill),
+        266 => ser::<266>(r, prefill),
+        267 => ser::<267>(r, prefill),
+        268 => ser::<268>(r, prefill),
+        269 => ser::<269>(r, prefill),
+        270 => ser::<270>(r, prefill),
+        271 => ser::<271>(r, prefill),
+        272 => ser::<272>(r, prefill),
+        273 => ser::<273>(r, prefill),
+        274 => ser::<274>(r, prefill),
+        275 => ser::<275>(r, prefill),
+        276 => ser::<276>(r, prefill),
+        277 => ser::<277>(r, prefill),
+        278 => ser::<278>(r, prefill),
+        279 => ser::<279>(r, prefill),
+        280 => ser::<280>(r, prefill),
+        281 => ser::<281>(r, prefill),
+        282 => ser::<282>(r, prefill),
+        283 => ser::<283>(r, prefill),
+        284 => ser::<284>(r, prefill),
+        285 => ser::<285>(r, prefill),
+        286 => ser::<286>(r, prefill),
+        287 => ser::<287>(r, prefill),
+        288 => ser::<288>(r, prefill),
+        289 => ser::<289>(r, prefill),
+        290 => ser::<290>(r, prefill),
+        291 => ser::<291>(r, prefill),
+        292 => ser::<292>(r, prefill),
+        293 => ser::<293>(r, prefill),
+        294 => ser::<294>(r, prefill),
+        295 => ser::<295>(r, prefill),
+        296 => ser::<296>(r, prefill),
+        297 => ser::<297>(r, prefill),
+        298 => ser::<298>(r, prefill),
+        299 => ser::<299>(r, prefill),
+        300 => ser::<300>(r, prefill),
+        301 => ser::<301>(r, prefill),
+        302 => ser::<302>(r, prefill),
+        303 => ser::<303>(r, prefill),
+        304 => ser::<304>(r, prefill),
+        305 => ser::<305>(r, prefill),
+        306 => ser::<306>(r, prefill),
+        307 => ser::<307>(r, prefill),
+        308 => ser::<308>(r, prefill),
+        309 => ser::<309>(r, prefill),
+        310 => ser::<310>(r, prefill),
+        311 => ser::<311>(r, prefill),
+        312 => ser::<312>(r, prefill),
+        313 => ser::<313>(r, prefill),
+        314 => ser::<314>(r, prefill),
+        315 => ser::<315>(r, prefill),
+        316 => ser::<316>(r, prefill),
+        317 => ser::<317>(r, prefill),
+        318 => ser::<318>(r, prefill),
+        319 => ser::<319>(r, prefill),
+        320 => ser::<320>(r, prefill),
         1023 => ser::<1023>(r, prefill),
         1024 => ser::<1024>(r, prefill),
         1025 => ser::<1025>(r, prefill),
@@ -310,6 +499,15 @@ pub fn build(g: &Gen) -> ctap2::Response {
             r.total_credentials = Some([0u32, 24, 256, 65536][l % 4]);
             ctap2::Response::CredentialManagement(r)
         }
+        f if f.starts_with("seed:") => {
+            // "seed:<kind index>": len = index into the seed masks of that response kind
+            let k: usize = f[5..].parse().unwrap();
+            let kind = RKINDS[k];
+            let plan = Plan::new(&kind.schema(), Side::Response);
+            let masks = crate::reqcheck::seed_masks(&plan);
+            let view = refmodel::decode(&kind.schema(), &plan.build(masks[l].1, &[])).unwrap().unwrap();
+            kind.build(&view)
+        }
         "getinfo" => {
             let plan = Plan::new(&get_info_response(), Side::Response);
             let view = refmodel::decode(&get_info_response(), &plan.build(if l == 0 { 0 } else { plan.full_mask() }, &[])).unwrap().unwrap();
@@ -328,11 +526,16 @@ fn family_range(f: &'static str) -> Vec<usize> {
         "ga-x5c" => (0..=1024).collect(),
         "cm-count" => (0..4).collect(),
         "getinfo" => vec![0, 1],
+        f if f.starts_with("seed:") => {
+            let k: usize = f[5..].parse().unwrap();
+            let plan = Plan::new(&RKINDS[k].schema(), Side::Response);
+            (0..crate::reqcheck::seed_masks(&plan).len()).collect()
+        }
         _ => vec![0],
     }
 }
 
-pub const FAMILIES: [&str; 16] = ["cm-rp", "ga-x5c", "reset", "selection", "vendor", "cp-empty", "cm-empty", "lb-empty", "cp-token", "cp-token+key", "ga-authdata", "gna-authdata", "mc-authdata+x5c", "lb-config", "cm-count", "getinfo"];
+pub const FAMILIES: [&str; 23] = ["seed:0", "seed:1", "seed:2", "seed:3", "seed:4", "seed:5", "seed:6", "cm-rp", "ga-x5c", "reset", "selection", "vendor", "cp-empty", "cm-empty", "lb-empty", "cp-token", "cp-token+key", "ga-authdata", "gna-authdata", "mc-authdata+x5c", "lb-config", "cm-count", "getinfo"];
 
 pub fn check(g: &Gen, n: usize, prefill: u8) -> Verdict {
     let r = build(g);
@@ -446,7 +649,7 @@ pub fn run(ctx: &'static Ctx) {
         let mut sizes_hit = std::collections::BTreeSet::new();
         for (i, (g, size)) in sized.iter().enumerate() {
             let near = *size + 3 >= n && *size <= n + 2;
-            let fixed = matches!(g.family, "reset" | "selection" | "vendor" | "cp-empty" | "cm-empty" | "lb-empty" | "cm-count" | "getinfo") || (g.len == family_range(g.family).last().copied().unwrap_or(0));
+            let fixed = g.family.starts_with("seed:") || matches!(g.family, "reset" | "selection" | "vendor" | "cp-empty" | "cm-empty" | "lb-empty" | "cm-count" | "getinfo") || (g.len == family_range(g.family).last().copied().unwrap_or(0));
             if near || fixed {
                 if near {
                     sizes_hit.insert(*size);
@@ -462,7 +665,7 @@ pub fn run(ctx: &'static Ctx) {
     }
     ctx.note(format!("{} of {} capacities have at least 5 distinct body sizes inside their N-3..N+2 window", windows_covered, CAPS.len()));
     let (cr, sr) = (&cases, &sized);
-    sweep(ctx, "capacity x body size x prefill", cases.len() as u64, "capacities 1..=128, 255..257, 1023..1025, 3071..3073, 7609 x every response whose body size is within N-3..N+2 (swept bytewise) plus empty, parameter-less and largest bodies x {empty, half-filled, completely filled buffer}", move |idx, l| {
+    sweep(ctx, "capacity x body size x prefill", cases.len() as u64, "capacities 1..=320, 1023..1025, 3071..3073, 7609 x {every response whose body size is within N-3..N+2 (swept bytewise); the minimal, full and every single-optional-member response of every kind; empty, parameter-less and largest bodies} x {empty, half-filled, completely filled buffer}", move |idx, l| {
         let (i, n, p) = cr[idx as usize];
         let (g, size) = &sr[i];
         if *size + 3 >= n && *size <= n + 2 {
